@@ -5,6 +5,8 @@ package contracts
 import (
 	"encoding/json"
 
+	"github.com/iancoleman/orderedmap"
+
 	appchainMgr "github.com/meshplus/bitxhub-core/appchain-mgr"
 	"github.com/meshplus/bitxhub-core/governance"
 	nodemgr "github.com/meshplus/bitxhub-core/node-mgr"
@@ -239,5 +241,76 @@ func ZZH_C03_rule_update() {
 		if r.Address != want {
 			zz.Assert("C03.rule-update.other-rule-bindable", r.Status == governance.GovernanceBindable && !r.Master)
 		}
+	}
+}
+
+// ZZH_C16_chain_cascade: an approved freeze or logout of appchain chA goes through the real
+// AppchainManager.Manage (cascade into the real ServiceManager / RuleManager / Governance). The
+// chain's service has a symbolic status at that moment. Afterwards the service is unusable, and
+// it stays unusable whatever service-level operation the chain admin or a governance admin then
+// submits and gets approved (activate / unfreeze attempts) while the chain is not available.
+func ZZH_C16_chain_cascade() {
+	w, cs := zzFullWorld()
+	w.audit = zz.Choice("audit", 2) == 1
+	zzPutGovAdmins(w, 4)
+	zzPutChainAdmin(w, "chA", zzChainAdminA)
+	sst := []governance.GovernanceStatus{governance.GovernanceAvailable, governance.GovernanceFrozen, governance.GovernanceUpdating,
+		governance.GovernanceFreezing, governance.GovernanceActivating, governance.GovernanceLogouting}[zz.Choice("serviceStatus", 6)]
+	id := "chA:s7"
+	w.putObj(zzServiceAddr, service_mgr.ServiceKey(id), service_mgr.Service{ChainID: "chA", ServiceID: "s7", Name: "s7", Type: service_mgr.ServiceCallContract,
+		Ordered: true, Permission: map[string]struct{}{}, Status: sst})
+	list := orderedmap.New()
+	list.Set(id, struct{}{})
+	w.putObj(zzServiceAddr, service_mgr.AppchainServicesKey("chA"), list)
+	w.putObj(zzAppchainAddr, appchainMgr.AppchainKey("chA"), appchainMgr.Appchain{ID: "chA", ChainName: "chA", ChainType: "fabric", Status: governance.GovernanceAvailable})
+	w.putObj(zzRuleAddr, ruleMgr.RuleKey("chA"), []*ruleMgr.Rule{{Address: "0xM000000000000000000000000000000000000001", ChainID: "chA", Master: true, Status: governance.GovernanceAvailable}})
+	w.putObj(zzAppchainAddr, appchainMgr.AppAdminsChainKey("chA"), []string{zzChainAdminA})
+	w.putObj(zzAppchainAddr, appchainMgr.AppchainAdminKey(zzChainAdminA), "chA")
+	// the chain operation is submitted through its real entry point (logout pauses the chain's
+	// services already at submission) and then approved
+	var ev governance.EventType
+	var serr error
+	if zz.Choice("chainOperation", 2) == 0 {
+		ev = governance.EventFreeze
+		w.caller = zzAdminIDs[0]
+		_, serr = zzInvoke(w, cs[zzAppchainAddr], zzAppchainAddr, zzAdminIDs[0], "FreezeAppchain", []*pb.Arg{pb.String("chA"), pb.String("reason")})
+	} else {
+		ev = governance.EventLogout
+		w.caller = zzChainAdminA
+		_, serr = zzInvoke(w, cs[zzAppchainAddr], zzAppchainAddr, zzChainAdminA, "LogoutAppchain", []*pb.Arg{pb.String("chA"), pb.String("reason")})
+	}
+	zz.Assert("C16.cascade.chain-operation-submitted", serr == nil)
+	_, err := zzInvoke(w, cs[zzAppchainAddr], zzAppchainAddr, zzGovAddr, "Manage",
+		[]*pb.Arg{pb.String(string(ev)), pb.String(string(APPROVED)), pb.String(string(governance.GovernanceAvailable)), pb.String("chA"), pb.Bytes(nil)})
+	zz.Assert("C16.cascade.chain-operation-concludes", err == nil)
+	var chain appchainMgr.Appchain
+	w.getObj(zzAppchainAddr, appchainMgr.AppchainKey("chA"), &chain)
+	zz.Assert("C16.cascade.chain-unavailable", !chain.IsAvailable())
+	svc := func() *service_mgr.Service {
+		s := &service_mgr.Service{}
+		w.getObj(zzServiceAddr, service_mgr.ServiceKey(id), s)
+		return s
+	}
+	zz.Assert("C16.cascade.service-unusable", !svc().IsAvailable())
+	if ev == governance.EventLogout {
+		zz.Assert("C16.cascade.logout-clears-service", svc().Status == governance.GovernanceForbidden)
+	}
+	// afterwards: somebody entitled tries to bring the service back while the chain is unavailable
+	callers := []string{zzChainAdminA, zzAdminIDs[0]}
+	caller := callers[zz.Choice("operator", 2)]
+	w.caller = caller
+	pre := svc().Status
+	ret, oerr := zzInvoke(w, cs[zzServiceAddr], zzServiceAddr, caller, "ActivateService", []*pb.Arg{pb.String(id), pb.String("back")})
+	zz.Cover("C16.cascade.activate-refused", oerr != nil) // (on correct code the paused / cleared service cannot even be submitted for activation)
+	if oerr == nil {
+		var gr governance.GovernanceResult
+		_ = json.Unmarshal(ret, &gr)
+		_, merr := zzInvoke(w, cs[zzServiceAddr], zzServiceAddr, zzGovAddr, "Manage",
+			[]*pb.Arg{pb.String(string(governance.EventActivate)), pb.String(string(APPROVED)), pb.String(string(pre)), pb.String(id), pb.Bytes(nil)})
+		_ = merr
+	}
+	zz.Assert("C16.cascade.stays-unusable-under-unavailable-chain", !svc().IsAvailable())
+	if ev == governance.EventLogout {
+		zz.Assert("C16.cascade.logged-out-is-final", svc().Status == governance.GovernanceForbidden)
 	}
 }
